@@ -149,6 +149,11 @@ def evaluate(ck, recs):
             f["spec_violated"] = True
             f["theorem_or_correspondence"] = "generator.stateExecuter.ExecuteTransaction vs framework.ABIHandler.ExecuteTransaction"
             ck.failures.append(f)
+    # the scenario with an uncertified parameter change (commits for H-1 and H pooled, maxHeightPrecommitted >= H) must have
+    # been exercised whenever acceptance cases were generated: its sealed aggregate commit is compared with the bound H-1
+    if acc and not any(r.get("pendingparams") and r.get("paramsh", 0) > 0 and r.get("precommitted", 0) >= r.get("paramsh", 0)
+                       and any("aggregateCommitBound" in fl for fl in (r.get("fields") or [])) for r in acc):
+        ck.fail_obligation("harness-setup", "the pending-parameter-change acceptance scenario was not exercised")
     rounds = []
     for r in acc:
         for i in range(len(r["forged"])):
@@ -167,7 +172,7 @@ def evaluate(ck, recs):
             ck.count()
             ntx = (r.get("ntx") or [0])[min(i, len(r.get("ntx") or [0]) - 1)] if r.get("ntx") else 0
             aggh = (r.get("aggh") or [0])[min(i, len(r.get("aggh") or [0]) - 1)] if r.get("aggh") else 0
-            ck.nontrivial(("acc", r["nval"], r["pre"], r["events"], i, ntx > 0, aggh > 0, bool(r.get("badevery")), bool(r.get("limit")), bool(r.get("execmix")), bool(r.get("nextvals"))))
+            ck.nontrivial(("acc", r["nval"], r["pre"], r["events"], i, ntx > 0, aggh > 0, bool(r.get("badevery")), bool(r.get("limit")), bool(r.get("execmix")), bool(r.get("nextvals")), bool(r.get("pendingparams"))))
             if code != 0:
                 f = dict(kind="input", key="c15:acc:spec",
                          what="block generated by forge() was not accepted by the same node's Executer, or exceeds the size limit, or "
@@ -223,7 +228,7 @@ def run(ck):
                       "and without a crash between persist and hand-off, tip changes by valid block / tie break / better shorter "
                       "chain / longer chain, chain switches with arbitrary deletes/applies and refused forging, restarts, heights "
                       "near 2^32); acceptance: chains of 0..8 blocks with 1/2/4 validators, 0..2 events, 1..2 consecutive "
-                      "forge+process rounds on a real Executer. Distinct non-trivial: selections with >= 2 pops (by pool, limit, "
+                      "forge+process rounds on a real Executer, plus fixed scenarios (pools, size limit, aggregate commit, execution mix, validator change, 8 validators, uncertified parameter change with commits pooled at H-1 and H). Distinct non-trivial: selections with >= 2 pops (by pool, limit, "
                       "script); sequences with >= 2 forged headers (by events); acceptance rounds by (validators, chain length, "
                       "events, round)")
     ck.cov["exhaustive"] = False
